@@ -14,7 +14,7 @@ let cipher tag mk key =
   | None -> let e = memo (mk key) in if Hashtbl.length cache > 32 then Hashtbl.reset cache; Hashtbl.add cache k e; e
 let sm4e key = cipher "sm4e" sm4_encrypt_block key
 let sm4d key = cipher "sm4d" sm4_decrypt_block key
-let aese key = cipher "aese" aes_encrypt_block key
+let aese key = cipher "aese" aes_encrypt_block16 key
 let take n l = List.filteri (fun i _ -> i < n) l
 let drop n l = List.filteri (fun i _ -> i >= n) l
 
